@@ -241,7 +241,14 @@ def check_cases(ctx, cases):
         for _, t, p, _g in es:
             ctx.count("type=" + t)
             ctx.count("mode=canonical" if p in CANON else "mode=other")
-        d = impl_dir(es)
+        try:
+            d = impl_dir(es)
+        except Exception as e:
+            ctx.fail(case, f"a directory whose entries have distinct names without '/' or NUL and 20-byte targets is rejected: {type(e).__name__}: {str(e)[:100]}", "legal-entries-rejected:" + type(e).__name__)
+            impl.append(None)
+            reqs.append({"op": "ping"})
+            reqs.append({"op": "ping"})
+            continue
         man = git_objects.directory_git_object(d)
         gitfmt.dict_form_agrees(ctx, case, git_objects.directory_git_object, d, man)
         rec = {"manifest": man, "id": d.id, "swhid": str(d.swhid())}
@@ -292,6 +299,8 @@ def check_cases(ctx, cases):
     for ci, case in enumerate(cases):
         r1, r2 = res[2 * ci], res[2 * ci + 1]
         rec = impl[ci]
+        if rec is None:
+            continue
         if "error" in r1 or "error" in r2:
             if ctx.model_available:
                 ctx.disagree(case, "model driver error", model=[r1, r2])
